@@ -88,7 +88,8 @@ theorem leaf_finish {ed : Ed} (hinv : Inv ed) {P : Path} {t : List Entry}
       if (P ++ [n]) <+: K then none else if K = P then some t' else aget K ed.trees)
     {v : Option Leaf} (hv : (findName t' n).bind leafOf = v) {r : Step}
     (hr : r = .stop (.ok { ed with trees := trees' })) : LeafOut ed P t n v r := by
-  have hinv' := inv_leaf_update hinv hP ht' hnodir hother trees' hget ed.pathBuf
+  have hinv' := inv_leaf_update hinv hP ht'
+    (fun e he hd => by rw [hnodir e he] at hd; cases hd) hother trees' hget ed.pathBuf
   refine ⟨{ ed with trees := trees' }, t', hr, hinv', rfl, ?_, ?_, ?_⟩
   · show aget P trees' = some t'
     rw [hget]; simp [not_prefix_append_singleton P n]
